@@ -147,32 +147,26 @@ pub fn from_utf8_assume_valid(input: &[u8]) -> Result<&str, simdutf8::basic::Utf
 }
 
 // ---- R3d class stubs: the verdict of each validator call is fixed per query ---------------
-// `BAD_*` = index (in call order) of the one call that is to be in the "invalid" class;
-// usize::MAX = every call is in the "valid" class. Set by the scenario before decoding.
-pub static mut UTF8_CALLS: usize = 0;
-pub static mut UTF8_BAD: usize = usize::MAX;
-pub static mut NAME_CALLS: usize = 0;
-pub static mut NAME_BAD: usize = usize::MAX;
-pub static mut FILTER_CALLS: usize = 0;
-pub static mut FILTER_BAD: usize = usize::MAX;
+// "valid" class: every call assumes its input valid and answers "valid".
+// "invalid" class queries mark the one field that is to be invalid by its *length*: the shape
+// gives that field 3 bytes and every other field validated by the same function a different
+// length, so the verdict is a constant of the (concrete) length.  (An earlier version selected
+// the call by a `static mut` counter; writing statics from a stub made CBMC's heap model report
+// spurious dealloc-size mismatches elsewhere, so stubs hold no state.)
+pub const BAD_LEN: usize = 3;
 
-/// select the class vector of this query (no effect natively: the real validators run)
-pub fn set_classes(utf8_bad: usize, name_bad: usize, filter_bad: usize) {
-    unsafe {
-        UTF8_CALLS = 0;
-        UTF8_BAD = utf8_bad;
-        NAME_CALLS = 0;
-        NAME_BAD = name_bad;
-        FILTER_CALLS = 0;
-        FILTER_BAD = filter_bad;
-    }
-}
+/// kept for source compatibility of generated scenarios; class selection is by stub choice
+pub fn set_classes(_utf8_bad: usize, _name_bad: usize, _filter_bad: usize) {}
 
 #[cfg(kani)]
 pub fn from_utf8_class_stub(input: &[u8]) -> Result<&str, simdutf8::basic::Utf8Error> {
-    let i = unsafe { UTF8_CALLS };
-    unsafe { UTF8_CALLS = i + 1 };
-    if i == unsafe { UTF8_BAD } {
+    kani::assume(utf8_model(input));
+    Ok(unsafe { std::str::from_utf8_unchecked(input) })
+}
+
+#[cfg(kani)]
+pub fn from_utf8_bad_len3(input: &[u8]) -> Result<&str, simdutf8::basic::Utf8Error> {
+    if input.len() == BAD_LEN {
         kani::assume(!utf8_model(input));
         Err(simdutf8::basic::Utf8Error)
     } else {
@@ -183,9 +177,13 @@ pub fn from_utf8_class_stub(input: &[u8]) -> Result<&str, simdutf8::basic::Utf8E
 
 #[cfg(kani)]
 pub fn topic_name_class_stub(value: &str) -> bool {
-    let i = unsafe { NAME_CALLS };
-    unsafe { NAME_CALLS = i + 1 };
-    if i == unsafe { NAME_BAD } {
+    kani::assume(topic_name_bytes_ok(value.as_bytes()));
+    false
+}
+
+#[cfg(kani)]
+pub fn topic_name_bad_len3(value: &str) -> bool {
+    if value.len() == BAD_LEN {
         kani::assume(!topic_name_bytes_ok(value.as_bytes()));
         true
     } else {
@@ -198,9 +196,13 @@ pub fn topic_name_class_stub(value: &str) -> bool {
 /// validator itself is decided by the C16 unit harnesses over all Unicode scalars
 #[cfg(kani)]
 pub fn topic_filter_class_stub(value: &str) -> (bool, u16) {
-    let i = unsafe { FILTER_CALLS };
-    unsafe { FILTER_CALLS = i + 1 };
-    if i == unsafe { FILTER_BAD } {
+    kani::assume(plain_filter_bytes_ok(value.as_bytes()));
+    (false, 0)
+}
+
+#[cfg(kani)]
+pub fn topic_filter_bad_len3(value: &str) -> (bool, u16) {
+    if value.len() == BAD_LEN {
         kani::assume(!plain_filter_bytes_ok(value.as_bytes()));
         (true, 0)
     } else {
